@@ -1,5 +1,8 @@
 use smlmc::report::{machinery, Tier};
 
+#[global_allocator]
+static GLOBAL: smlmc::alloc::CountingAlloc = smlmc::alloc::CountingAlloc;
+
 fn usage() -> ! {
     eprintln!("usage: smlmc check <C01..C18> [quick|thorough]\n       smlmc replay <file>");
     std::process::exit(2)
@@ -27,6 +30,12 @@ fn main() {
                 "C17" => smlmc::e1c::run_c05_c17("C17", tier),
                 "C08" => smlmc::e1c::run_c08(tier),
                 "C14" => smlmc::e1c::run_c14(tier),
+                "C03" => smlmc::e4::run("C03", tier),
+                "C04" => smlmc::e4::run("C04", tier),
+                "C06" => smlmc::e4::run("C06", tier),
+                "C09" => smlmc::e4::run("C09", tier),
+                "C12" => smlmc::e4::run("C12", tier),
+                "C13" => smlmc::e4::run("C13", tier),
                 _ => machinery(&format!("no check registered for {}", prop)),
             }
         }
@@ -40,6 +49,7 @@ fn main() {
             let vs = match case.get("engine").and_then(|e| e.as_str()) {
                 Some("e2") => smlmc::e2::replay(&case),
                 Some("e1") => smlmc::e1::replay(&case),
+                Some("e4") => smlmc::e4::replay(&case),
                 _ => machinery("unknown engine in replay file"),
             };
             println!("replaying {} (recorded class: {})", path, class);
